@@ -48,10 +48,16 @@ def run(c):
         shutil.rmtree(tmp, ignore_errors=True)
 
 bad = 0
+known_missed = 0
 with cf.ThreadPoolExecutor(jobs) as ex:
     for c, verdict, info in ex.map(run, cases):
         print('%-7s %-34s %s' % (verdict, c['name'], info if verdict != 'CAUGHT' else info[:120]))
-        if verdict != 'CAUGHT':
+        if verdict == 'MISSED' and c.get('known_miss'):
+            # a change the technique cannot decide (recorded in DESIGN.md): it
+            # must stay listed, and if a check ever catches it that is news too
+            known_missed += 1
+            print('        (known miss: %s)' % c['known_miss'])
+        elif verdict != 'CAUGHT':
             bad += 1
-print('selftest: %d cases, %d not caught' % (len(cases), bad))
+print('selftest: %d cases, %d not caught, %d known misses' % (len(cases), bad, known_missed))
 sys.exit(1 if bad else 0)
